@@ -577,4 +577,5 @@ def _fx_line(prog, fixture=True):
 SELFTESTS = [
     (_fx_line, ["c03_bad.c"], ["c03_good.c"], "print_target_line_number"),
     (rule_input_independence, ["c03_bad.c"], ["c03_good.c"], "ftell"),
+    (rule_count_extent, ["c03_count_bad.c"], ["c03_count_good.c"], "count::extent"),
 ]
